@@ -75,18 +75,6 @@ C(f"{F}:next_end_tokens", params=ST, generator=True, requires=["indents_wf(state
 SCAN_REQ = ["0 <= state.pos <= state.max", "state.max == len(state.line)", "state.end_progs.n >= 0"]
 SCAN_MOD = ["state.pos", "state.parenlev", "state.continued", "state.end_progs.n"]
 
-C(f"{F}:handle_end_progs", params=ST, generator=True, verify=False,
-  why_assumed="string / f-string continuation: regex matching and a list of mutable frames (stage 2 of the tokenize contracts)",
-  requires=SCAN_REQ, ensures=["state.pos >= old(state.pos)", "state.pos <= state.max", "state.end_progs.n >= 0"],
-  raises_when={"TokenError": "state.end_progs.n > 0 and state.pos == 0 and state.line == ''"},
-  modifies=SCAN_MOD, raises=["TokenError"], properties=["C03", "C08"])
-
-C(f"{F}:next_psuedo_matches", params=ST, returns="opt[Tok]", verify=False,
-  why_assumed="master-regex dispatch (re.Match objects): bounded stand-in + E3 lemmas (epsilon-freeness gives the progress clause)",
-  requires=SCAN_REQ, ensures=["state.pos >= old(state.pos)", "state.pos <= state.max", "state.end_progs.n >= 0",
-                              "implies(not is_none(result), state.pos > old(state.pos))"],
-  modifies=SCAN_MOD, may_raise=["TokenError"], raises=["TokenError"], properties=["C03", "C08"])
-
 C(f"{F}:_tokenize", params={"readline": "linesrc"}, generator=True,
   ensures=["len(yielded) > 0", "yielded[len(yielded) - 1].type == Token.ENDMARKER"],       # C08: the stream ends with an ENDMARKER
   loops={
@@ -103,13 +91,143 @@ C(f"{F}:_tokenize", params={"readline": "linesrc"}, generator=True,
 
 
 TS = {"self": "obj:TokenizerState"}
+C(f"{F}:TokenizerState.in_mode", params={**TS, "mode": "union[const:ModeMiddle|const:ModeInBraces|const:ModeInColon]"}, returns="bool", pure=True,
+  requires=["self.end_progs.n >= 0"],
+  ensures=["result == (self.end_progs.n > 0 and self.end_progs.top.mode_kind == mode_kind_of(mode))"], raises=[], properties=["C03", "C10"])
 for nm, kind in (("in_braces", 2), ("in_fstring", 1), ("in_colon", 3)):
-    C(f"{F}:TokenizerState.{nm}", params=TS, returns="bool", pure=True, verify=False,
-      why_assumed="one-line wrapper of in_mode(); mode classes are abstracted to kinds 1=ModeMiddle 2=ModeInBraces 3=ModeInColon",
-      ensures=[f"result == (self.end_progs.n > 0 and self.end_progs.top.mode_kind == {kind})"], properties=["C03", "C10"])
+    C(f"{F}:TokenizerState.{nm}", params=TS, returns="bool", pure=True, requires=["self.end_progs.n >= 0"],
+      ensures=[f"result == (self.end_progs.n > 0 and self.end_progs.top.mode_kind == {kind})"], raises=[], properties=["C03", "C10"])
 
 # C03: end of input inside a string / f-string / replacement field must end the scan with TokenError (the outer loop of
 # _tokenize relies on exactly this clause of handle_end_progs' contract)
 C(f"{F}:handle_end_progs#eof", params=ST, generator=True,
   requires=["state.end_progs.n > 0", "state.pos == 0", "state.line == ''", "state.max == 0"],
   always_raises=True, raises=["TokenError"], properties=["C03"])
+
+
+# ---------------------------------------------------------------------------------------------- stage 2: frames, patterns, f-string mode machine
+# (C08 tiling of string / f-string tokens, C10 mode machine, C03 safety).  What `re` does is the ASSUMED contract in engine/pymatch.py.
+EP = {"self": "obj:EndProg", "state": "obj:TokenizerState"}
+LINE_OK = ["0 <= state.pos <= state.max", "state.max == len(state.line)"]
+SLINE_OK = ["0 <= self.pos <= self.max", "self.max == len(self.line)"]
+
+C(f"{F}:EndProg.join", params={**EP, "end": "int"}, requires=LINE_OK + ["state.pos <= end <= state.max"],
+  ensures=["self.text == old(self.text) + state.line[state.pos:end]"], modifies=["self.text"], raises=[], properties=["C08", "C10"])
+
+C(f"{F}:EndProg.join_line", params=EP, requires=LINE_OK,
+  ensures=["self.text == old(self.text) + state.line[state.pos:]", "self.contline == old(self.contline) + state.line"],
+  modifies=["self.text", "self.contline"], raises=[], properties=["C08", "C10"])
+
+C(f"{F}:EndProg.reset", params={"self": "obj:EndProg", "start": "pos"},
+  ensures=["self.start == start", "self.text == ''", "self.contline == ''"], modifies=["self.start", "self.text", "self.contline"], raises=[],
+  properties=["C08", "C10"])
+
+C(f"{F}:TokenizerState.prog_token", params={**TS, "end": "int", "tok": "int"}, returns="Tok",
+  requires=SLINE_OK + ["self.pos <= end <= self.max", "self.end_progs.n > 0"],
+  ensures=[
+      # C08: the token carries the text buffered from earlier lines plus this line's text up to `end`, from where the frame started
+      "result.type == tok", "result.string == old(self.end_progs.top.text) + self.line[old(self.pos):end]",
+      "result.start == old(self.end_progs.top.start)", "result.end == (self.lnum, end)", "self.pos == end",
+      "self.end_progs.top.text == result.string", "self.end_progs.n == old(self.end_progs.n)"],
+  modifies=["self.pos", "self.end_progs.top.text"], raises=[], properties=["C08", "C10", "C03"])
+
+C(f"{F}:TokenizerState.in_multi_line_string", params=TS, returns="bool", pure=True, requires=["self.end_progs.n >= 0"],
+  ensures=["result == (self.end_progs.n > 0 and len(self.end_progs.top.quote) == 3)"], raises=[], properties=["C03", "C10"])
+
+C(f"{F}:TokenizerState.at_parenlev", params=TS, returns="bool", pure=True, requires=["self.end_progs.n > 0"],
+  ensures=["result == (self.end_progs.top.mode_kind != 0 and self.end_progs.top.parenlevel == self.parenlev)"], raises=[], properties=["C03", "C10"])
+
+C(f"{F}:TokenizerState.pop_mode", params={**TS, "end": "opt[pos]=None"}, requires=["self.end_progs.n > 0"],
+  ensures=["self.end_progs.n == old(self.end_progs.n) - 1", "result is old(self.end_progs.top)" if False else "self.end_progs.n >= 0",
+           # the frame uncovered by the pop restarts its text buffer at `end` (C08: nothing of the closed field leaks into the next literal part)
+           "implies(not is_none(end) and self.end_progs.n > 0, self.end_progs.top.start == end and self.end_progs.top.text == '' and self.end_progs.top.contline == '')"],
+  modifies=["self.end_progs.n", "self.end_progs.top"], raises=[], properties=["C03", "C08", "C10"])
+
+C(f"{F}:TokenizerState.add_prog", params={**TS, "start": "int", "end": "int", "mode": "opt[mode]=None", "pattern": "pattern=''", "quote": "str=''"},
+  requires=SLINE_OK + ["0 <= start <= end <= self.max", "self.end_progs.n >= 0",
+                       # frame invariant at construction: the end pattern fits the mode and the quote
+                       "implies(mode_kind_of(mode) == 1, pat_kind(pattern) == 2 and pat_q(pattern) == quote and len(quote) >= 1)",
+                       "implies(mode_kind_of(mode) == 3, pat_kind(pattern) == 3)",
+                       "implies(mode_kind_of(mode) == 0, pat_kind(pattern) == 1 and pat_q(pattern) == quote and len(quote) >= 1)"],
+  ensures=["self.end_progs.n == old(self.end_progs.n) + 1", "self.end_progs.top.text == self.line[start:end]", "self.end_progs.top.start == (self.lnum, start)",
+           "self.end_progs.top.contline == ''", "self.end_progs.top.quote == quote",
+           "self.end_progs.top.mode_kind == mode_kind_of(mode)", "self.end_progs.top.parenlevel == mode_level_of(mode, 0)",
+           "self.end_progs.top.pat == pat_kind(pattern)", "self.end_progs.top.patq == pat_q(pattern)"],
+  modifies=["self.end_progs.n", "self.end_progs.top"], raises=[], properties=["C03", "C08", "C10"])
+
+# frame / pattern consistency of the top frame (established by the add_prog call sites, see next_psuedo_matches and handle_fstring_progs)
+TOP = "state.end_progs.top"
+FRAME_OK = [f"implies({TOP}.mode_kind == 1, {TOP}.pat == 2 and {TOP}.patq == {TOP}.quote and len({TOP}.quote) >= 1)",
+            f"implies({TOP}.mode_kind == 3, {TOP}.pat == 3)"]
+YL = "yielded[len(yielded) - 1]"
+
+C(f"{F}:handle_fstring_progs", params={"state": "obj:TokenizerState", "endprog": "obj:EndProg"}, alias={"endprog": "state.end_progs.top"}, generator=True,
+  requires=LINE_OK + ["state.end_progs.n > 0", f"{TOP}.mode_kind == 1 or {TOP}.mode_kind == 3", "state.lnum >= 1"],
+  requires_assumed={f"implies({TOP}.mode_kind == 3, state.end_progs.n >= 2)":
+                    "a format-spec frame always sits on the replacement-field frame that opened it (frames below the top are not modelled); "
+                    "the only place that pushes one is guarded by in_braces() (obligation C10.frames.colon_on_braces)"},
+  ensures=[
+      "state.pos >= old(state.pos)", "state.pos <= state.max", "state.end_progs.n >= 0",
+      # nothing matched: nothing happens
+      "implies(state.pos == old(state.pos), len(yielded) == 0 and state.end_progs.n == old(state.end_progs.n) and same_frame(state.end_progs.top, old(state.end_progs.top)))",
+      "implies(state.pos > old(state.pos), 1 <= len(yielded) <= 2)", "len(yielded) <= 2",
+      # C08: the last token is the delimiter, its text is the source slice it spans, and it ends at the new cursor
+      f"implies(len(yielded) >= 1, {YL}.end == (state.lnum, state.pos) and {YL}.start[0] == state.lnum and old(state.pos) <= {YL}.start[1] <= state.pos"
+      f" and {YL}.string == state.line[{YL}.start[1]:state.pos])",
+      f"implies(len(yielded) >= 1, ({YL}.type == Token.FSTRING_END and {YL}.string == old({TOP}.quote)) or ({YL}.type == Token.OP and ({YL}.string == '{{' or {YL}.string == '}}')))",
+      # C08: the literal text before it -- buffered from earlier lines plus this line's -- is one FSTRING_MIDDLE, adjacent to the delimiter; nothing is dropped
+      f"implies(len(yielded) == 2, yielded[0].type == Token.FSTRING_MIDDLE and yielded[0].string == old({TOP}.text) + state.line[old(state.pos):yielded[1].start[1]]"
+      f" and yielded[0].start == old({TOP}.start) and yielded[0].end == yielded[1].start)",
+      f"implies(len(yielded) == 1, old({TOP}.text) == '' and yielded[0].start == (state.lnum, old(state.pos)))",
+      # C10 mode machine: quote closes the f-string, '{{' opens a replacement field frame at the new bracket depth, '}}' closes spec + field
+      f"implies(len(yielded) >= 1 and {YL}.type == Token.FSTRING_END, state.end_progs.n == old(state.end_progs.n) - 1 and state.parenlev == old(state.parenlev))",
+      f"implies(len(yielded) >= 1 and {YL}.type == Token.OP and {YL}.string == '{{', state.end_progs.n == old(state.end_progs.n) + 1 and state.parenlev == old(state.parenlev) + 1"
+      f" and {TOP}.mode_kind == 2 and {TOP}.parenlevel == state.parenlev and {TOP}.text == '' and {TOP}.start == (state.lnum, state.pos))",
+      f"implies(len(yielded) >= 1 and {YL}.type == Token.OP and {YL}.string == '}}', state.end_progs.n == old(state.end_progs.n) - 2 and state.parenlev == old(state.parenlev) - 1)",
+  ],
+  modifies=["state.pos", "state.parenlev", "state.end_progs.n", "state.end_progs.top", "endprog.text"], raises=[], properties=["C03", "C08", "C10"])
+
+C(f"{F}:TokenizerState.in_continued_string", params=TS, returns="bool", pure=True, requires=["self.end_progs.n >= 0"],
+  ensures=["implies(result, self.end_progs.n > 0)"], raises=[], properties=["C03", "C10"])
+
+FRAME_OK3 = FRAME_OK + [f"implies({TOP}.mode_kind == 0, {TOP}.pat == 1 and {TOP}.patq == {TOP}.quote and len({TOP}.quote) >= 1)"]
+COLON_ON_BRACES = {f"implies({TOP}.mode_kind == 3, state.end_progs.n >= 2)":
+                   "a format-spec frame always sits on the replacement-field frame that opened it (frames below the top are not modelled); "
+                   "the only place that pushes one is guarded by in_braces() (obligation C10.frames.colon_on_braces)"}
+
+C(f"{F}:handle_end_progs", params=ST, generator=True,
+  requires=SCAN_REQ + ["state.lnum >= 1"],
+  requires_assumed={f"implies(state.end_progs.n > 0, {k})": v for k, v in COLON_ON_BRACES.items()},
+  ensures=["state.pos >= old(state.pos)", "state.pos <= state.max", "state.end_progs.n >= 0", "len(yielded) <= 2",
+           # nothing pending, or inside a replacement field: this routine does nothing (the ordinary token patterns scan the expression)
+           "implies(old(state.end_progs.n) == 0 or old(state.end_progs.top.mode_kind) == 2, len(yielded) == 0 and state.pos == old(state.pos) and state.end_progs.n == old(state.end_progs.n))",
+           # C08, plain (non-f) string frame: either the closing quote is on this line and ONE STRING token carries everything buffered plus this line's
+           # text up to and including the quote, from where the string started ...
+           f"implies(old(state.end_progs.n) > 0 and old({TOP}.mode_kind) == 0 and len(yielded) > 0, len(yielded) == 1 and yielded[0].type == Token.STRING"
+           f" and yielded[0].string == old({TOP}.text) + state.line[old(state.pos):state.pos] and yielded[0].start == old({TOP}.start)"
+           " and yielded[0].end == (state.lnum, state.pos) and state.end_progs.n == old(state.end_progs.n) - 1)",
+           # C08, f-string frames: when tokens were produced the cursor stands right after the last of them (nothing behind it was swallowed);
+           # the rest of the line is looked at again by the caller
+           f"implies(len(yielded) > 0, {YL}.end == (state.lnum, state.pos))",
+           # ... or nothing is yielded and, if the cursor moved, the rest of the line went into the frame's buffer (no character is lost)
+           f"implies(len(yielded) == 0 and state.pos > old(state.pos), state.pos == state.max and state.end_progs.n == old(state.end_progs.n)"
+           f" and {TOP}.text == old({TOP}.text) + state.line[old(state.pos):])",
+           ],
+  raises_when={"TokenError": "state.end_progs.n > 0 and state.pos == 0 and state.line == ''"},
+  modifies=SCAN_MOD + ["state.end_progs.top"], raises=["TokenError"], properties=["C03", "C08", "C10"])
+
+C(f"{F}:next_psuedo_matches", params=ST, returns="opt[Tok]",
+  requires=SCAN_REQ + ["state.lnum >= 1"], requires_assumed=dict(COLON_ON_BRACES) if False else {},
+  ensures=["state.pos >= old(state.pos)", "state.pos <= state.max", "state.end_progs.n >= 0",
+           "implies(not is_none(result), state.pos > old(state.pos))",
+           # C08: a token returned here is the source slice from the old cursor to the new one, on this line
+           "implies(not is_none(result), result.string == state.line[old(state.pos):state.pos] and result.start == (state.lnum, old(state.pos))"
+           " and result.end == (state.lnum, state.pos))",
+           # C08: the opening of a plain string yields nothing, but its text is carried by the new frame from where it starts
+           f"implies(is_none(result) and state.end_progs.n == old(state.end_progs.n) + 1, {TOP}.mode_kind == 0 and {TOP}.text == state.line[old(state.pos):state.pos]"
+           f" and {TOP}.start == (state.lnum, old(state.pos)))",
+           # C10: an f-string start pushes a literal-text frame at the current bracket depth; ':' at the top level of a field pushes a spec frame
+           f"implies(not is_none(result) and result.type == Token.FSTRING_START, state.end_progs.n == old(state.end_progs.n) + 1 and {TOP}.mode_kind == 1"
+           f" and {TOP}.parenlevel == state.parenlev and {TOP}.text == '' and {TOP}.start == (state.lnum, state.pos))",
+           ],
+  modifies=SCAN_MOD + ["state.end_progs.top"], raises=["TokenError"], properties=["C03", "C08", "C10"])
